@@ -2,6 +2,7 @@
 from __future__ import annotations
 
 import ast
+import re
 import itertools
 
 from sa.engine.callgraph import calls_in, resolve_call
@@ -231,6 +232,11 @@ def rule_n4(ctx: Ctx) -> RuleReport:
 _PRE_TRANSFORMS = {"re.sub", "re.subn", "re.split"}
 
 
+# elements a body fragment typically starts with / whose content must never be text, and the ways an opening tag is written
+HTML_HINT_TAGS = ["div", "p", "br", "span", "table", "style", "script"]
+HTML_TAG_FORMS = [("bare", "<{t}>"), ("with attribute", '<{t} class="a">'), ("self-closing", "<{t}/>"), ("self-closing with blank", "<{t} />"), ("attribute on next line", "<{t}\nid='x'>")]
+
+
 def rule_n5(ctx: Ctx) -> RuleReport:
     rep = RuleReport("C17-N5", "MHTML and MSG HTML bodies reach text only through the checked parsers, markup not rewritten on the way")
     # MHTML: read_mhtml -> read_html(io.BytesIO(html_content)); html_content comes from _extract_from_mhtml unchanged
@@ -281,6 +287,38 @@ def rule_n5(ctx: Ctx) -> RuleReport:
                 rep.ok({"mhtml_regex_sub": short(c, 60), "role": "base64 whitespace removal before b64decode"})
             else:
                 rep.fail(Finding("C17-N5", MHTML, fi.qual, short(c), "markup is rewritten by a regular expression before it reaches the parser; a pattern that knows nothing of raw-text elements can delete end tags and visible text", line=c.lineno))
+    # MSG: the decision "this body is HTML" (PidTagHtml fragments come without <html>/<body>): the hint pattern, folded from the
+    # source, is evaluated over the finite table of opening-tag forms of the elements whose content must not become text
+    mm = ctx.p.module(MSG)
+    lk = ctx.p.maybe_func(MSG, "_looks_like_html")
+    if lk is None:
+        raise AnalysisError("C17-N5: _looks_like_html vanished from the msg extractor")
+    rx_names = [n.func.value.id for n in ast.walk(lk.node) if isinstance(n, ast.Call) and isinstance(n.func, ast.Attribute) and n.func.attr in ("search", "match") and isinstance(n.func.value, ast.Name) and _is_regex_obj(ctx, mm, n.func.value)]
+    for rn in rx_names:
+        node = mm.assigns[rn]
+        pat = ctx.folder.fold(mm, node.args[0]) if node.args else None
+        if not isinstance(pat, str):
+            raise AnalysisError(f"C17-N5: {rn} is not a foldable str pattern")
+        flags = 0
+        for a in list(node.args[1:]) + [k.value for k in node.keywords if k.arg == "flags"]:
+            for x in ast.walk(a):
+                if isinstance(x, ast.Attribute) and isinstance(x.value, ast.Name) and x.value.id == "re":
+                    flags |= int(getattr(re, x.attr, 0))
+        try:
+            rx = re.compile(pat, flags)
+        except re.error as exc:
+            rep.fail(Finding("C17-N5", MSG, rn, "pattern does not compile", str(exc), line=node.lineno))
+            continue
+        rep.unit(rn)
+        for tag in HTML_HINT_TAGS:
+            for form_name, form in HTML_TAG_FORMS:
+                sample = "Hello " + form.format(t=tag) + "x"
+                if rx.search(sample):
+                    rep.ok({"pattern": rn, "tag": tag, "form": form_name})
+                else:
+                    rep.fail(Finding("C17-N5", MSG, rn, f"<{tag}> {form_name} not recognised", f"{rn} does not find {form.format(t=tag)!r} ({form_name}): an HTML body stored as a fragment (no <html>/<body> wrapper) is taken for plain text, so its markup, style sheets and comments become the extracted text", line=node.lineno))
+    if not rx_names:
+        rep.ok({"_looks_like_html": "no regular expression consulted"})
     # MSG: _html_to_text feeds _HtmlTreeBuilder
     g = ctx.p.func(MSG, "_html_to_text")
     rep.unit(g.key)
